@@ -2014,7 +2014,13 @@ func (s *TreeShapeListener) EnterEvent(ctx *parser.EventContext) {
 			s.currentApp().Endpoints[s.endpointName] = ep
 		}
 		if ctx.Attribs_or_modifiers() != nil {
-			ep.Attrs = s.makeAttributeArray(ctx.Attribs_or_modifiers().(*parser.Attribs_or_modifiersContext))
+			// the event may have been declared in an earlier block: keep its attributes
+			attrs := s.makeAttributeArray(ctx.Attribs_or_modifiers().(*parser.Attribs_or_modifiersContext))
+			if ep.Attrs == nil {
+				ep.Attrs = attrs
+			} else {
+				mergeAttrs(attrs, ep.Attrs)
+			}
 		}
 		if ctx.Statements(0) != nil && ep.Stmt == nil {
 			ep.Stmt = []*sysl.Statement{}
